@@ -236,6 +236,65 @@ func (d *drv) checkExpanded(in *caseInput, what string, p merklize.Path, err err
 	}
 }
 
+// aliasOracle: a Path returned by a resolver is a value.  By-value copies are extended with Prepend / Append
+// (several rounds, different parts); the original must keep its Parts() and MtEntry(), and every copy must equal
+// the path built in one go — immediately and after all the other copies have been extended.
+func (d *drv) aliasOracle(in *caseInput, what string, orig merklize.Path, only string) {
+	snap := append([]any{}, orig.Parts()...)
+	k0, e0 := orig.MtEntry()
+	rounds := []struct{ pre, post []any }{
+		{pre: []any{"urn:alias:A"}},
+		{pre: []any{"urn:alias:B", 7}},
+		{post: []any{"urn:alias:C"}},
+		{pre: []any{"urn:alias:D"}, post: []any{3}},
+		{post: []any{"urn:alias:E", 1}},
+		{pre: []any{"urn:alias:F"}},
+	}
+	d.rep.Count("path-value-copies")
+	var copies []merklize.Path
+	var wants [][]any
+	for _, r := range rounds {
+		c := orig // by-value copy
+		if len(r.pre) > 0 {
+			_ = c.Prepend(r.pre...)
+		}
+		if len(r.post) > 0 {
+			_ = c.Append(r.post...)
+		}
+		want := append(append(append([]any{}, r.pre...), snap...), r.post...)
+		if !partsEqual(c.Parts(), want) {
+			d.fail(in, "c11-path-aliasing", fmt.Sprintf("%s: a copy extended with Prepend(%v)/Append(%v) is %v, expected %v", what, r.pre, r.post, c.Parts(), want), only)
+			return
+		}
+		copies, wants = append(copies, c), append(wants, want)
+	}
+	if !partsEqual(orig.Parts(), snap) {
+		d.fail(in, "c11-path-aliasing", fmt.Sprintf("%s = %v changed to %v after Prepend/Append on by-value COPIES of it", what, snap, orig.Parts()), only)
+		return
+	}
+	if k1, e1 := orig.MtEntry(); (e0 == nil) != (e1 == nil) || (e0 == nil && k0.Cmp(k1) != 0) {
+		d.fail(in, "c11-path-aliasing", fmt.Sprintf("%s: MtEntry of the path changed after Prepend/Append on copies", what), only)
+		return
+	}
+	for i, c := range copies {
+		if !partsEqual(c.Parts(), wants[i]) {
+			class := "c11-path-aliasing"
+			if len(rounds[i].pre) == 0 {
+				// a copy that was only appended to, overwritten by a later Append on another copy
+				class = "c11-path-append-aliasing"
+			}
+			d.fail(in, class, fmt.Sprintf("%s: copy %d (Prepend %v, Append %v) became %v after other copies were extended, expected %v", what, i, rounds[i].pre, rounds[i].post, c.Parts(), wants[i]), only)
+			return
+		}
+		built, _ := d.opts().NewPath(wants[i]...)
+		kb, eb := built.MtEntry()
+		if kc, ec := c.MtEntry(); (eb == nil) != (ec == nil) || (eb == nil && kb.Cmp(kc) != 0) {
+			d.fail(in, "c11-path-aliasing", fmt.Sprintf("%s: copy %d hashes differently from the path built in one go", what, i), only)
+			return
+		}
+	}
+}
+
 func (c *ccase) recP(kind string, a, b []string, p merklize.Path, err error) {
 	q := query{kind: kind, a: a, b: b, failed: err != nil}
 	if err == nil {
@@ -290,6 +349,13 @@ func (d *drv) runCase(in *caseInput) {
 			c.entries = append(c.entries, stored[k])
 		}
 		c.eClass = "ok"
+		for _, f := range in.Features {
+			if f == "graph-container" {
+				// named graphs are not part of the Coq subset model: `facts` is not compared for these
+				// documents (the resolver queries are); the implementation-side oracles do the work
+				c.eClass = "skip"
+			}
+		}
 	case "err":
 		c.eClass = "err"
 		if in.Kind != "failing" {
@@ -321,6 +387,9 @@ func (d *drv) runCase(in *caseInput) {
 		p, err := resolveDoc(path)
 		c.recP("QDoc", lf.DocPath, nil, p, err)
 		d.checkExpanded(in, "ResolveDocPath("+path+")", p, err, path)
+		if err == nil && i%2 == 1 {
+			d.aliasOracle(in, "ResolveDocPath("+path+")", p, path)
+		}
 		var failedDoc bool
 		switch {
 		case err != nil:
@@ -381,6 +450,12 @@ func (d *drv) runCase(in *caseInput) {
 		full := append([]string{lf.TypeTerm}, lf.Rel...)
 		cp, err2 := o.PathFromContext(in.Ctx, strings.Join(full, "."))
 		c.recP("QCtx", full, nil, cp, err2)
+		if err == nil {
+			d.aliasOracle(in, "FieldPathFromContext("+lf.TypeTerm+", "+rel+")", fp, path)
+		}
+		if err2 == nil && i%2 == 0 {
+			d.aliasOracle(in, "PathFromContext("+strings.Join(full, ".")+")", cp, path)
+		}
 		d.checkExpanded(in, "FieldPathFromContext("+lf.TypeTerm+", "+rel+")", fp, err, path)
 		d.checkExpanded(in, "PathFromContext("+strings.Join(full, ".")+")", cp, err2, path)
 		tpath := append([]string{lf.TypeTerm}, noIndices(lf.Rel)...)
